@@ -5,6 +5,7 @@ from __future__ import annotations
 
 import copy
 import json
+import os
 import random
 import re
 
@@ -185,6 +186,35 @@ def build(steps, gmeta):
     return g
 
 
+def post_edit(g, pid, k):
+    """In-place attribute edits through node handles AFTER the graph was built (deterministic in k): for C17 every node gets a
+    variable type of its own (the nodes of one variable disagree); for C15 the derived-graph operations are called first (whatever
+    they memoise on the object is now warm), then variable type and user metadata are changed uniformly per variable, so the
+    recorded calls must carry the NEW attributes to every copy."""
+    rng = random.Random(1000003 * k + 17)
+    vts = list(H.VT.values())
+    if pid == 'C17':
+        for nd in g.get_nodes():
+            nd.variable_type = rng.choice(vts)
+    elif pid == 'C15':
+        for b, f in ((1, 1), (2, 2), (0, 3), (3, 0)):
+            try:
+                g.extend_graph(b, f)
+            except Exception:  # noqa: BLE001
+                pass
+        per = {}
+        for nd in g.get_nodes():
+            v = nd.variable_name
+            if v not in per:
+                per[v] = (rng.choice(vts), rng.choice([None, {'unit': f'u{k}'}, {'w': [k, {'z': None}]}]))
+            nd.variable_type = per[v][0]
+            for key in [x for x in nd.meta if x not in RESERVED]:
+                del nd.meta[key]
+            if per[v][1]:
+                nd.meta.update(copy.deepcopy(per[v][1]))
+    return g
+
+
 # ---- Coq terms ------------------------------------------------------------------------------
 def user_meta(m):
     return C.canon_json({k: v for k, v in m.items() if k not in RESERVED})
@@ -263,26 +293,53 @@ def cq_case(g, which, rng, tier):
             % (cq_tsg(g), C.cq_list(C.cq_bool, which), mn, ismin, adj, '; '.join(ext), stat, isstat, summ))
 
 
-def run_cases(graphs, which, rng, tier, tag='ts', chunk=25):
+# the code GENERATED from time_series_causal_graph.py on every run (tools/translate_ts_extend.py, translate_ts_summary.py), evaluated on
+# the same rows: (module, entry point, columns of ITS result vector that compare the generated code with the implementation)
+GEN = {'C14': ('CorrTSGenMinimal', 'check_tcases_gen_minimal', [0, 1], 'TSGenMinimal.v: get_minimal_graph / is_minimal_graph'),
+       'C15': ('CorrTSGenExtend', 'check_tcases_gen_extend', [0], 'TSGenExtend.v: extend_graph'),
+       'C16': ('CorrTSGenStationary', 'check_tcases_genstat', [4, 5], 'TSGenStationary.v: get_stationary_graph / is_stationary_graph'),
+       'C17': ('CorrTSGenSummary', 'check_tcases_gensum', [6], 'TSGenSummary.v: get_summary_graph')}
+
+
+def _rows_of(blk):
+    return [[int(x) for x in re.findall(r'\d+', re.sub(r'%\w+', '', row))] for row in re.findall(r'\[([^\[\]]*)\]', blk)]
+
+
+def run_cases(graphs, which, rng, tier, tag='ts', chunk=25, gen=None):
+    """Evaluate the hand model (CorrTS.check_tcases) on the cases the implementation ran; with gen=(module, entry point) the
+    generated code is evaluated on the same rows in a second file per chunk (kept apart so that a generated file that no longer
+    compiles cannot take the hand-model comparison with it). Returns out, or (out, gen_out | None, gen_error)."""
     wd = C.workdir()
     rows = [cq_case(g, which, rng, tier) for g in graphs]
-    files = []
+    files, gfiles = [], []
     for i in range(0, len(rows), chunk):
+        body = 'Definition cs : list tcase := [\n ' + ';\n '.join(rows[i:i + chunk]) + '\n].\n'
         f = wd / f'{tag}_{i // chunk}.v'
-        f.write_text(C.COQ_HEADER + 'From CG Require Import Base TSGraph CorrTS.\nLocal Open Scope N_scope.\n'
-                     'Definition cs : list tcase := [\n ' + ';\n '.join(rows[i:i + chunk]) + '\n].\nEval vm_compute in (check_tcases cs).\n')
+        f.write_text(C.COQ_HEADER + 'From CG Require Import Base TSGraph CorrTS.\nLocal Open Scope N_scope.\n' + body + 'Eval vm_compute in (check_tcases cs).\n')
         files.append(f)
-    res = C.run_coq_files(files, timeout=1800)
+        if gen:
+            gf = wd / f'{tag}_gen_{i // chunk}.v'
+            gf.write_text(C.COQ_HEADER + f'From CG Require Import Base TSGraph CorrTS {gen[0]}.\nLocal Open Scope N_scope.\n' + body + f'Eval vm_compute in ({gen[1]} cs).\n')
+            gfiles.append(gf)
+    res = C.run_coq_files(files + gfiles, timeout=1800)
     out = []
-    for f, rc, so, se in res:
+    for f, rc, so, se in res[:len(files)]:
         if rc != 0:
             raise RuntimeError(f'coqc failed on {f}: {se[-2000:]}')
-        blk = C.parse_eval_blocks(so)[0]
-        for row in re.findall(r'\[([^\[\]]*)\]', blk):
-            out.append([int(x) for x in re.findall(r'\d+', re.sub(r'%\w+', '', row))])
+        out += _rows_of(C.parse_eval_blocks(so)[0])
     if len(out) != len(graphs):
         raise RuntimeError(f'Coq returned {len(out)} rows for {len(graphs)} cases')
-    return out
+    if not gen:
+        return out
+    gout, gerr = [], ''
+    for f, rc, so, se in res[len(files):]:
+        if rc != 0:
+            gerr = f'the generated definitions could not be evaluated ({f.name}): {se[-300:]}'
+            break
+        gout += _rows_of(C.parse_eval_blocks(so)[0])
+    if not gerr and len(gout) != len(graphs):
+        gerr = f'Coq returned {len(gout)} rows for {len(graphs)} cases'
+    return out, (None if gerr else gout), gerr
 
 
 def ts_property(run, tier, seed, pid, describe=''):
@@ -290,6 +347,9 @@ def ts_property(run, tier, seed, pid, describe=''):
     n = {'quick': 260, 'thorough': 4000}[tier]
     if pid == 'C15':
         n = {'quick': 120, 'thorough': 1500}[tier]
+    refused = os.environ.get('VERIF_TRANSLATOR_REFUSED') == '1'      # set by main.py: the source translator refused the current source
+    if refused and tier == 'quick':
+        n *= 3
     specs = []
     cdir = C.VERIF / 'corpus' / pid
     if cdir.exists():
@@ -311,6 +371,12 @@ def ts_property(run, tier, seed, pid, describe=''):
         specs += [('all-3-variable-lag-1', st, gm) for st, gm in all_summary3()]
     specs.append(('empty', [], None))
     graphs = [build(s, gm) for _, s, gm in specs]
+    edited = {}
+    if pid in ('C15', 'C17'):
+        for i, g in enumerate(graphs):
+            if i % 3 == 1 and specs[i][0] != 'corpus':
+                post_edit(g, pid, i)
+                edited[i] = i
     # derived objects are inputs too: the graph a derived-graph operation RETURNED (with whatever it cached or pre-marked on it)
     # is itself queried and compared with the model evaluated on its extracted structure
     derive = {'C14': lambda g: g.get_minimal_graph(), 'C15': lambda g: g.extend_graph(1, 1), 'C16': lambda g: g.get_stationary_graph()}.get(pid)
@@ -324,7 +390,15 @@ def ts_property(run, tier, seed, pid, describe=''):
             specs.append(('derived:' + specs[i][0], specs[i][1], specs[i][2]))
             graphs.append(h)
     which = [p == pid for p in ('C14', 'C15', 'C16', 'C17')]
-    out = run_cases(graphs, which, rng, tier, tag=pid.lower())
+    if refused:
+        out, gout, gerr = run_cases(graphs, which, rng, tier, tag=pid.lower()), [], ''
+    else:
+        out, gout, gerr = run_cases(graphs, which, rng, tier, tag=pid.lower(), gen=GEN[pid][:2])
+    gbad = [] if gout is None else [i for i, r in enumerate(gout) if any(r[c] == 0 for c in GEN[pid][2])]
+    run.coverage['translated_source_cases'] = 0 if refused else len(graphs)
+    if not refused:
+        run.oblige(f'correspondence: translated time_series_causal_graph.py ({GEN[pid][3]}) == implementation on {len(graphs)} time-series graphs',
+               gout is not None and not gbad, gerr or ('' if not gbad else f'{len(gbad)} divergences; first: graph {gbad[0]} steps={specs[gbad[0]][1]!r}'[:480]))
     from collections import Counter
     cols = Counter()
     diverging = []
@@ -353,7 +427,7 @@ def ts_property(run, tier, seed, pid, describe=''):
         for i in bad[:2]:
             found = True
             run.violation(dict(steps=specs[i][1], gmeta=specs[i][2], mode=specs[i][0], why=why, result_vector=dict(zip(COLS, out[i])),
-                               replay_cmd=f'./check {pid} --replay <this file>'), note=why)
+                               post_edit=edited.get(i), replay_cmd=f'./check {pid} --replay <this file>'), note=why)
     if pid == 'C14' and not found:
         # adjacency_matrices is part of the property ("that template set written as one matrix per source lag"); the model's
         # matrices are proved to be exactly that (adj_matrices_spec), so on a consistent template set a differing answer is a failing input
@@ -372,6 +446,8 @@ def ts_property(run, tier, seed, pid, describe=''):
 def replay_ts(run, path, pid):
     c = json.loads(open(path).read())
     g = build([tuple(s) for s in c['steps']], c.get('gmeta'))
+    if c.get('post_edit') is not None:
+        post_edit(g, pid, c['post_edit'])
     which = [p == pid for p in ('C14', 'C15', 'C16', 'C17')]
     out = run_cases([g], which, random.Random(0), 'thorough', tag='replay', chunk=1)
     r = dict(zip(COLS, out[0]))
